@@ -12,18 +12,20 @@ CONSTANTS AProcs, AKeys, NoKey,
 VARIABLES store,    \* store[k]: the value of k (0, the zero value of V, is a legal value;
                     \* whether k has been constructed is cons[k], never store[k] # 0)
           pend,     \* pend[p]: the key of p's Get in progress, NoKey = none
-          cons      \* cons[k]: number of constructor invocations for k
+          cons,     \* cons[k]: number of constructor invocations for k
+          bad       \* bad[k]: the constructor invocation for k panicked: k has no value, for ever
 
-avars == <<store, pend, cons>>
+avars == <<store, pend, cons, bad>>
 
 AInit == /\ store = [k \in AKeys |-> 0]
          /\ pend = [p \in AProcs |-> NoKey]
          /\ cons = [k \in AKeys |-> 0]
+         /\ bad = [k \in AKeys |-> FALSE]
 
 AInvoke(p, k) ==
     /\ pend[p] = NoKey
     /\ pend' = [pend EXCEPT ![p] = k]
-    /\ UNCHANGED <<store, cons>>
+    /\ UNCHANGED <<store, cons, bad>>
 
 (* The constructor runs for k and yields v: only inside a Get(k) in progress,  *)
 (* and only if k has no value yet.                                             *)
@@ -32,17 +34,28 @@ AConstruct(k, v) ==
     /\ \E p \in AProcs : pend[p] = k
     /\ store' = [store EXCEPT ![k] = v]
     /\ cons' = [cons EXCEPT ![k] = 1]
-    /\ UNCHANGED pend
+    /\ UNCHANGED <<pend, bad>>
 
-(* Get returns v: the value constructed for the key, which must exist. *)
+(* The constructor, run by p's Get(k), panics: the invocation is spent, k gets *)
+(* no value, p's Get ends with the panic.  Every other Get(k) can only wait.   *)
+APanic(p, k) ==
+    /\ pend[p] = k /\ cons[k] = 0
+    /\ cons' = [cons EXCEPT ![k] = 1]
+    /\ bad' = [bad EXCEPT ![k] = TRUE]
+    /\ pend' = [pend EXCEPT ![p] = NoKey]
+    /\ UNCHANGED store
+
+(* Get returns v: the value a constructor invocation for the key returned,     *)
+(* which must exist (never for a key whose construction panicked).             *)
 AReturn(p, v) ==
     /\ pend[p] # NoKey
-    /\ cons[pend[p]] = 1 /\ store[pend[p]] = v
+    /\ cons[pend[p]] = 1 /\ ~bad[pend[p]] /\ store[pend[p]] = v
     /\ pend' = [pend EXCEPT ![p] = NoKey]
-    /\ UNCHANGED <<store, cons>>
+    /\ UNCHANGED <<store, cons, bad>>
 
 ANext == \/ \E p \in AProcs, k \in AKeys : AInvoke(p, k)
          \/ \E k \in AKeys, v \in AVals : AConstruct(k, v)
+         \/ \E p \in AProcs, k \in AKeys : APanic(p, k)
          \/ \E p \in AProcs, v \in AVals : AReturn(p, v)
 
 ASpec == AInit /\ [][ANext]_avars
